@@ -246,6 +246,9 @@ def adversarial_handmade():
     # generated-id coincidence: children "ab","c" and "a","bc" concatenate to the same id
     out.append(_R("All", _R("Any", _R("Any", LEAF("ab"), c), x), _R("Any", _R("Any", a, LEAF("bc")), y)))
     out.append(_R("All", _R("Any", LEAF("ab"), c), _R("Any", a, LEAF("bc"))))
+    # ids that contain the separator of the text form
+    out.append(_R("All", _R("Any", _R("Any", LEAF("a,b"), id="S"), x), _R("Any", _R("Any", a, b, id="S"), y)))
+    out.append(_R("All", _R("Any", _R("Any", LEAF("a,b"), c, id="S"), x), _R("Any", _R("Any", a, LEAF("b,c"), id="S"), y)))
     # same explicit id, different value / sign / children, at different depths
     out.append(_R("All", _R("AtLeast", a, b, id="P", v=1), _R("Any", _R("AtLeast", a, b, id="P", v=2), c)))
     out.append(_R("All", _R("AtLeast", a, b, id="P", v=1, s=1), _R("Any", _R("AtLeast", a, b, id="P", v=1, s=-1), c)))
@@ -327,6 +330,9 @@ def run_c16(ctx):
         _R("XNor", _R("Any", a, b), LEAF("c"), LEAF("d")),
         dict(_R("Cfg", dict(_R("ccAny", a, b, LEAF("c")), d="a"), dict(_R("ccXor", LEAF("x"), LEAF("y")), d="x"), id="cfg")),
         dict(_R("Cfg", dict(_R("ccAny", LEAF("s", 0, 3), b, LEAF("c")), d="s"), id="cfg")),
+        dict(_R("Cfg", dict(_R("ccAny", LEAF("petrol"), LEAF("diesel"), LEAF("el")), d="petrol", d2="diesel"), id="cfg")),
+        dict(_R("Cfg", dict(_R("ccAny", a, b, LEAF("c")), d="c", d2="a"), dict(_R("ccXor", LEAF("x"), LEAF("y"), LEAF("z")), d="z", d2="x"))),
+        _R("Imply", _R("AtMost", LEAF("t", -2, 2), v=-1), b), _R("Imply", _R("AtLeast", a, v=1, s=-1), b), _R("Imply", _R("AtLeast", LEAF("t", -2, 2), v=1, s=-1), b, id="R"),
     ]]
     # defaulted Xor / Any over differently named members (generated ids decide the order of the two halves)
     for names in ("klm", "ghi", "bcd", "xyz", "pqr", "abcd", "efg", "mno"):
@@ -404,7 +410,8 @@ def random_polys(ctx, n, required=("rows>=3", "cols>=3", "nonunit_coef", "zero_c
         if any(lo == hi for lo, hi in bounds): ctx.region("degenerate_bound")
         if any(r[0] > sum(max(a * lo, a * hi) for a, (lo, hi) in zip(r[1:], bounds)) for r in rows): ctx.region("infeasible_hint")
         out.append({"rows": rows, "bounds": [list(b) for b in bounds], "src": "random", "k": k,
-                    "ids": ["c%d" % j for j in range(nc)], "index": ["r%d" % i for i in range(nr)], "dtype": dtype})
+                    "ids": rng.sample(["zc", "ab", "mx", "c0", "Q", "kk", "b1"], nc) if k % 2 else ["c%d" % j for j in range(nc)],
+                    "index": ["r%d" % i for i in range(nr)], "dtype": dtype})
     missing = [f for f in required if not ctx.regions.get(f)]
     if missing: raise Machinery("random polyhedra did not reach regions %s" % missing)
     return out
@@ -430,6 +437,16 @@ def run_c12(ctx):
     if not q:
         cases += poly_universe(ctx, ["TightSound", "RowBoundsExact"], "Poly_C12_3col", nr=1, nc=3, coefs=range(-3, 4), bs=range(-2, 3))
     cases += random_polys(ctx, 1500 if q else 20000)
+    # variable bounds taken from a narrow numpy table (int8 / int16) with wide ranges: counts and candidates exceed that type
+    rng = ctx.rng
+    for k in range(100 if q else 1000):
+        bd = rng.choice(["int8", "int16"])
+        nc = rng.randint(1, 3) if bd == "int8" else rng.randint(1, 2)        # the counts stay below TLC's 2^31
+        w = 100 if bd == "int8" else 20000
+        bounds = [[-rng.randint(1, w), rng.randint(1, w)] for _ in range(nc)]
+        rows = [[rng.randint(-50, 50)] + [rng.choice([-2, -1, 0, 1, 1, 3]) for _ in range(nc)] for _ in range(rng.randint(1, 3))]
+        cases.append({"rows": rows, "bounds": bounds, "src": "random", "k": k, "bounds_dtype": bd, "ids": ["w%d" % j for j in range(nc)]})
+        ctx.region("narrow_bounds_table")
     ctx.pmap(drivers.drv_tighten, _stamp(cases, "drv_tighten"))
     ctx.validate()
 
@@ -450,6 +467,14 @@ def run_c19(ctx):
     # every grid point as a vector / every pair as a matrix for a few matrices
     for c in base[:: max(1, len(base) // 60)]:
         cases.append(dict(c, points=[p for p in grid] + [[p1, p2] for p1 in grid[::3] for p2 in grid[::5]] + [[[p1, p2], [p2, p1], [p1, p1]] for p1 in grid[::4] for p2 in grid[1::6]]))
+    rng = ctx.rng
+    for k in range(150 if q else 1500):
+        nc = rng.randint(1, 3)
+        rows = [[rng.randint(-100, 100)] + [rng.choice([-3, -2, 2, 3, 1]) for _ in range(nc)] for _ in range(rng.randint(1, 3))]
+        pt = lambda: [rng.randint(-60, 60) for _ in range(nc)]
+        cases.append({"rows": rows, "bounds": [[0, 1]] * nc, "src": "random", "k": k, "dtype": "int8",
+                      "points": [pt(), [pt() for _ in range(2)], [[pt(), pt()], [pt(), pt()]]]})
+        ctx.region("int8_polyhedron")
     for c in random_polys(ctx, 300 if q else 4000, required=("rows>=3", "cols>=3")):
         nc = len(c["bounds"]); rng = ctx.rng
         pt = lambda: [rng.randint(-2, 3) for _ in range(nc)]
@@ -474,7 +499,7 @@ def run_c20(ctx):
     for k, c in enumerate(cases): c["bits"] = [k % 2, 1, (k // 2) % 2]
     rng = ctx.rng
     for k in range(300 if q else 3000):
-        ids = rng.sample(["a", "b", "c", "n7", "uml", "fz", "A", "zq", "n1", "s1", "nul"], rng.randint(1, 5))
+        ids = rng.sample(["a", "b", "c", "n7", "uml", "fz", "A", "zq", "n1", "s1", "nul", "tp", "tq"], rng.randint(1, 5))
         if "n1" in ids and "s1" in ids: ctx.region("int_and_str_form")
         vs = [{"id": i, "lo": b[0], "hi": b[1]} for i, b in ((i, rng.choice([(0, 1), (1, 1), (-3, 4), (2, 2), (0, 0), (-5, -2)])) for i in ids)]
         keys = rng.sample(ids + ["zz"], rng.randint(0, len(ids)))
@@ -536,9 +561,11 @@ def run_c13(ctx):
 
 # ------------------------------------------------------------------------------------------- C14 / C15
 CFG_RULES = ["ccAny", "ccXor", "All", "Any", "AtMost", "Imply"]
-def prios_lists(leaf_ids, rng, n=4):
+def prios_lists(leaf_ids, rng, n=4, comp_ids=()):
     ids = sorted(leaf_ids)
     out = [[{}]]
+    for c in list(comp_ids)[:2]:
+        out.append([{c: 2}] if not ids else [{c: 2, ids[0]: -1}, {c: -1}])           # a priority on a "package" (sub-proposition id)
     if ids:
         a = ids[0]; b = ids[-1]; c = ids[len(ids) // 2]
         out += [[{a: 1}], [{b: -1}], [{a: 1, b: 2}, {c: -1}], [{a: -2, b: 1}], [{a: 1, b: 1, c: 1}], [{a: 2, c: -3}, {}, {b: 1}]]
@@ -558,13 +585,17 @@ def cfg_cases(ctx, inv, quick_prios=3):
         ctx.notes.append("a seeded sample of 4000 of the %d enumerated configurators is replayed into the library" % len(cs))
         cs = ctx.rng.sample(cs, 4000)
     for c in cs:
-        c["prios_list"] = prios_lists(B_leaves(c["recipe"]), ctx.rng, n=1)
+        c["prios_list"] = prios_lists(B_leaves(c["recipe"]), ctx.rng, n=1, comp_ids=sorted(_explicit(c["recipe"]) - {c["recipe"]["id"]}))
     cases += cs
     # the same definition under two classes (the "at least one" half of an Xor and a separate Any) next to a defaulted Any
     for x, y, z in (("a", "b", "c"), ("p", "q", "r"), ("u", "w", "v"), ("d", "e", "f")):
         rr = _cc("Cfg", _R("Xor", LEAF(x), LEAF(y)), _R("Imply", _R("All", LEAF("k")), _R("Any", LEAF(x), LEAF(y))),
                  _cc("ccAny", LEAF(x), LEAF(z), LEAF("m"), d=z))
         cases.append({"recipe": rr, "src": "handmade", "prios_list": [[{}], [{"k": 1}], [{"k": 1, "m": -2}, {"m": 1, "k": 1}]]})
+    # integer items with a non-zero lower bound (a request that does not mention them must give them weight 0)
+    for lo, hi in ((1, 3), (-2, 1), (2, 2)):
+        rr = _cc("Cfg", _R("AtLeast", LEAF("n", lo, hi), LEAF("b"), id="R", v=2, s=1), _cc("ccAny", LEAF("a"), LEAF("b"), LEAF("c"), d="a", id="X"), id="cfg")
+        cases.append({"recipe": rr, "src": "handmade", "prios_list": [[{}], [{"b": 1}], [{"c": 2, "n": 1}, {"a": -1}], [{"X": 1}]]})
     g = gen.Gen(ctx.rng, classes=CFG_RULES, ints=False, max_kids=3, depth=2, documented=True, max_box=64)
     n = 0
     while n < (120 if q else 1500):
@@ -572,7 +603,7 @@ def cfg_cases(ctx, inv, quick_prios=3):
         rr = {"c": "Cfg", "a": rules, "id": "cfg" if n % 2 else "", "v": 0, "s": 0, "d": "", "f": -1}
         if len(_all_ids(rr)) > 11: continue
         for f in gen.features(rr): ctx.region(f)
-        cases.append({"recipe": rr, "src": "random", "prios_list": prios_lists(B_leaves(rr), ctx.rng, n=2)})
+        cases.append({"recipe": rr, "src": "random", "prios_list": prios_lists(B_leaves(rr), ctx.rng, n=2, comp_ids=sorted(_explicit(rr) - {rr["id"]}))})
         n += 1
     for k, c in enumerate(cases):
         if k % 3 == 1 and not _has_prefix(c["recipe"]): c["via"] = "json"          # StingyConfigurator.from_json(recipe document)
@@ -784,11 +815,16 @@ def run_c18(ctx):
     S_ = _R("Any", a, b, id="S")
     CfgN = _cc("Cfg", _R("All", S_, c, id="T"), id="cfgn")          # S is a NESTED sub-proposition: adding a rule named S is legitimate
     cat["CfgN"] = CfgN
-    pairs = [(cat["CfgD"], cat["CfgG"]), (CfgN, cat["CfgD"])]
+    # top-level ITEMS (an integer one too) next to a rule; a configurator made of one anonymous All
+    CfgI = _cc("Cfg", LEAF("n", -2, 3), LEAF("c"), _R("Any", a, b, id="X"), id="cfgi")
+    CfgA = _cc("Cfg", _R("All", _R("Any", a, b), _R("Any", c, LEAF("d"))))
+    pairs = [(cat["CfgD"], cat["CfgG"]), (CfgN, cat["CfgD"]), (CfgI, CfgA)]
     R_ = RULES()
     rules = (R_ if not q else R_[:3] + [R_[4]]) + [S_, _R("All", S_, LEAF("q"), id="T")]      # R_[4] re-uses the id of an existing top-level rule
+    rules += [_R("Any", LEAF("p"), LEAF("q"), id="n"), _R("Any", LEAF("p"), LEAF("r"), id="c")]      # rules named like top-level items
+    rules += [_R("Xor", LEAF("p"), LEAF("q"), id="P1"), _R("All", LEAF("p"), LEAF("q"), id="P1")]      # alternative variants of the rule named P1
     states = api_histories(ctx, "API_add", pairs, ["add", "cfg_poly"] if q else ["add", "cfg_poly", "select"], 3, rules)
-    cases = history_cases(ctx, states, [cat["CfgD"], cat["CfgG"], CfgN])
+    cases = history_cases(ctx, states, [cat["CfgD"], cat["CfgG"], CfgN, CfgI, CfgA])
     cases = [c for c in cases if any(x["op"] == "add" for x in c["calls"])]
     if q and len(cases) > 2500:
         ctx.notes.append("quick tier replays a seeded sample of 2500 of the %d enumerated add histories" % len(cases))
@@ -831,7 +867,7 @@ PROPS = {
     "C18": {"run": run_c18, "clauses": {"refused_iff_clash", "is_direct_build", "id_kept", "old_unchanged", "no_exception"}},
     "C13": {"run": run_c13, "clauses": {m + ":" + c for m in drivers.METHODS for c in ("shape", "exact", "prio_dense", "rank_dense", "zeros_signs", "ties", "order", "dominance", "unknown_method")} | {"no_exception"}},
     "C14": {"run": run_c14, "clauses": {"ranks", "opt_same", "dpv_expected", "poly_is_own", "objective_count", "cols_cover_leaves", "no_exception"}},
-    "C15": {"run": run_c15, "clauses": {"ranks", "opt_same", "dpv_expected", "cols_cover_leaves", "poly_is_own", "objective_count", "objective_by_id", "ids_aligned", "optimal", "model_true", "raises_infeasible", "no_exception"}},
+    "C15": {"run": run_c15, "clauses": {"ranks", "objective_levels", "opt_same", "dpv_expected", "cols_cover_leaves", "poly_is_own", "objective_count", "objective_by_id", "ids_aligned", "optimal", "model_true", "raises_infeasible", "no_exception"}},
     "C11": {"run": run_c11, "clauses": {"shape", "rows_implied", "cols_forced", "projection", "labels", "loop_inv", "reduce_cols_fn", "reduce_rows_fn", "no_exception"}},
     "C12": {"run": run_c12, "clauses": {"shape", "contain", "no_widen", "contra_only_if_empty", "rowb_exact", "colb", "ncomb", "no_exception"}},
     "C19": {"run": run_c19, "clauses": {"sat_value", "sep_value", "rowsep_value", "no_exception"}},
